@@ -8,6 +8,10 @@ re-serializes to the same JSON up to the tolerated differences.
 Positions that go through serde's `Content` buffer (interfaces / unions, fragment
 spreads, ID) are outside: see DESIGN.md.
 """
+import json
+import time
+
+import vp_common as vc
 import krun
 
 PROP = 'C01'
@@ -18,7 +22,40 @@ def build(c):
     c.add_response_harnesses({PROP: 'v != Verdict::RejectedValid && v != Verdict::Lossy'}, lambda e: [v for v in e['variants'] if v in ('base', 'rust')] if c.tier == 'thorough' else ['base'])
 
 
+def abstract_part(out):
+    """engine M on interface / union selections (the positions K-gen cannot execute): every selection that targets a possible
+    object type ends up in that type's variant; replayed by a consumer-crate round trip"""
+    import mcheck
+    import consumer
+    import abstract_common as AC
+    sc = vc.scratch(PROP + 'm')
+    R = mcheck.MRun(vc.REPO, sc, 'codegen', max_depth=80, max_paths=80000)
+    cands = [c for c in AC.run_kernel(R, vc.tier()) if c['prop'] == 'C01']
+    C = consumer.Consumer(sc)
+    seen = set()
+    replayed = 0
+    for c in sorted(cands, key=lambda c: len(json.dumps(c['model']))):
+        role = c['what'].split(':', 1)[1].split('-', 1)[1] if ':' in c['what'] else c['what']
+        if role in seen or len(seen) >= 3:
+            continue
+        seen.add(role)
+        ok, desc, rp = AC.confirm(C, c['model'])
+        replayed += 1
+        if ok is False:
+            out.violation('abstract:' + role, desc, dict(kind='solver', claim=c['what'], **rp))
+        elif ok is None:
+            out.inconc(f'abstract selection counterexample could not be replayed: {desc}')
+        else:
+            out.inconc(f'abstract selection counterexample {c["what"]} {c["model"]} did not reproduce natively')
+    for w in R.inconclusive:
+        out.inconc(w)
+    ev = R.evidence()
+    ev.update(paths=R.paths, obligations=R.obligations, discharged=R.discharged, replayed=replayed, samples=R.samples[:3])
+    return ev
+
+
 def main():
+    extra = {}
     return krun.standard_check(
         PROP, build, ok_real=lambda v: v not in ('RejectedValid', 'Lossy'),
         describe='a conforming payload is rejected or not preserved',
@@ -26,4 +63,4 @@ def main():
         assumptions=['SV / CheckSer harness models mirror serde_json::Value (validated natively on every run)',
                      'payload shapes: list lengths 0..2, one optional unknown member per object, symbolic i64 / f64 / bool, strings concrete (quick) or <= 1 symbolic byte (thorough)',
                      'operations: the catalogue under kgen/catalogue; interface / union / fragment-spread / ID positions are excluded (serde Content)'],
-        jobs=6)
+        jobs=6, pre=abstract_part)
